@@ -33,7 +33,9 @@ CONFIG = {
     ],
     "assumptions": [
         "target nodes are pairwise non-nested (paths like ** are outside the generator) and lie in the left "
-        "document (a target inside the right-hand document - F-C11-5 - is judged, not modelled)",
+        "document (since the repair of F-C11-5 path creation never stores the right-hand document in front of "
+        "segments still to be evaluated; a target inside the right-hand document is a failure of the judge and a "
+        "disagreement of the tie)",
         "the assumptions of C05",
     ],
 }
@@ -121,10 +123,6 @@ def plan(case):
     for loc in locs:
         cur = lhs
         for t, r in loc:
-            if cur is rhs:
-                # path creation stored the right-hand document and the path went on INTO it (F-C11-5): the
-                # model's targets are places of the left document
-                return "target-inside-rhs", None
             try:
                 cur = cur[r]
             except Exception:  # noqa
@@ -293,39 +291,18 @@ def aoh_default(case, obs):
         c05._aoh_default((None, None, case[3], None, None, None)) in ("left", "right")
 
 
-def uncreatable_segment_in_missing_path(case, obs):
-    """F-C11-5: the --mergeat path does not exist in the left document (or the
-    left document is empty) and holds a segment that path creation cannot build
-    (anything but a plain key or index: wildcard, search, anchor, slice ...).
-    Path creation (Nodes.build_next_node; Merger.merge_with for an empty
-    document, Processor._get_optional_nodes below an existing prefix) then
-    stores the right-hand document ITSELF at the first missing step and
-    evaluates the remaining segments inside it, so the right-hand document is
-    merged into its own children (a cyclic document) instead of a merge error."""
-    lhs_t, rhs_t, path, opts = case
-    E, C = _ENV, c05._ENV
-    from yamlpath.enums import PathSegmentTypes
-    p = E["YAMLPath"](path)
-    if p.is_root or c05.load(rhs_t) is None:
-        return False
-    if all(t in (PathSegmentTypes.KEY, PathSegmentTypes.INDEX) and not (isinstance(a, str) and ":" in a)
-           for t, a in p.escaped):
-        return False
-    lhs = c05.load(lhs_t)
-    if lhs is None:
-        return True
-    try:
-        return not list(E["Processor"](C["log"], lhs).get_nodes(p, mustexist=True))
-    except Exception:  # noqa
-        return True
-
-
-FINDING_PREDS = {"aoh_default_governs_non_aoh": aoh_default,
-                 "uncreatable_segment_in_missing_path": uncreatable_segment_in_missing_path}
+# F-C11-5 (uncreatable_segment_in_missing_path: a --mergeat path that is missing from the left document and goes
+# on with a wildcard, search, anchor or slice made path creation store the right-hand document at the first missing
+# step and evaluate the rest of the path INSIDE it, so the right-hand document was merged into its own children) is
+# repaired in path creation (Nodes.require_buildable_path); its witnesses stay in the corpus and such paths are part
+# of PATHS.
+FINDING_PREDS = {"aoh_default_governs_non_aoh": aoh_default}
 
 LHS = ["{a: {b: 1}, k: {b: 2}}", "{a: [1, 2], k: 5}", "{a: {b: {c: 1}}, l: [{id: 1}]}", "{a: !!set {x}, k: 1}",
        "[{a: 1}, {a: 2}]", "{a: 1}", "[]", "{}", "~", "{a: {b: [1]}, k: [2]}", "{a: [~, 1], k: 5}", "[[1, 2], [2], 5]"]
-PATHS = ["/", "/a", "/a/b", "/k", "/*", "/x", "/x/y", "/a[0]", "/a[.=zz]", "[0]", "/l[id=1]", "/a[.=1]"]
+PATHS = ["/", "/a", "/a/b", "/k", "/*", "/x", "/x/y", "/a[0]", "/a[.=zz]", "[0]", "/l[id=1]", "/a[.=1]",
+         # missing in every left document, and going on with a segment path creation cannot build (former F-C11-5)
+         "/x/*", "/x[.=1]", "/x/y[0:1]", "/x[-1]"]
 RHS = ["{c: 2}", "{b: 9}", "[2, 3]", "[{id: 1, v: 2}]", "7", "!!set {y}", "{}", "~"]
 
 
@@ -395,8 +372,10 @@ def corpus_chunks():
         ("{a: !!set {x}, k: 1}", "7", "/k", {}),                    # former F-C11-3 (Processor fixed: ecc1034)
         ("{a: [~, 1]}", "7", "/a[.=zz]", {}),                       # former F-C11-4 (Processor fixed: 21d5108)
         ("{a: [~, 1]}", "7", "/a[.=1]", {}),
-        ("~", "{id: {b: '1'}}", "/*", {}),                          # F-C11-5
-        ("{a: 1}", "{id: {b: '1'}}", "/x/*", {}),                   # F-C11-5
+        ("~", "{id: {b: '1'}}", "/*", {}),                          # former F-C11-5 (fixed 45f1b07)
+        ("{a: 1}", "{id: {b: '1'}}", "/x/*", {}),                   # former F-C11-5
+        ("~", "[[1]]", "/*", {}), ("~", "7", "[0:2]", {}), ("{a: 1}", "{c: 1}", "/x[&z]", {}),   # former F-C11-5
+        ("{a: 1}", "7", "/x[.=1]", {}), ("{a: 1}", "[2]", "/x/y[-1]", {}),                        # former F-C11-5
         ("{a: {b: 1}}", "{c: 2}", "/x/y", {}),
         ("{a: {b: 1}, k: {b: 2}}", "{c: 2}", "/*", {}),
         ("{a: 1}", "{c: 2}", "/b[.=x]", {}),
